@@ -41,6 +41,12 @@ type inliner struct {
 	seq   *int
 	// remap: objects declared by the helper being expanded -> fresh objects of this expansion
 	remap map[types.Object]types.Object
+	// tailStmt: the last statement of the function body being rewritten, when it is a plain call
+	// statement. A helper called there may contain defer statements: they run when the helper
+	// returns, which is when the caller returns, before the caller's own (earlier) defers —
+	// exactly what hoisting them into the caller gives.
+	tailStmt ast.Stmt
+	tail     bool
 }
 
 var inlineSeq int
@@ -51,6 +57,11 @@ func (p *Prog) InlineBody(pkg *packages.Package, body *ast.BlockStmt, self *type
 	in := &inliner{p: p, pkg: pkg, info: pkg.TypesInfo, seq: &inlineSeq}
 	if self != nil {
 		in.stack = append(in.stack, self)
+	}
+	if n := len(body.List); n > 0 {
+		if es, ok := body.List[n-1].(*ast.ExprStmt); ok {
+			in.tailStmt = es
+		}
 	}
 	ns, _ := in.rewriteStmt(body)
 	return ns.(*ast.BlockStmt)
@@ -133,6 +144,12 @@ func (in *inliner) clone(n ast.Node, sub map[types.Object]ast.Expr) ast.Node {
 			f.Set(ns)
 		}
 	}
+	// *&x (a pointer parameter bound to the address of a variable) is x
+	if se, ok := out.(*ast.StarExpr); ok {
+		if ue, ok := ast.Unparen(se.X).(*ast.UnaryExpr); ok && ue.Op == token.AND {
+			return ue.X
+		}
+	}
 	return out
 }
 
@@ -194,7 +211,10 @@ func (in *inliner) rewriteStmt(s ast.Stmt) (ast.Stmt, bool) {
 		return &n, true
 	case *ast.ExprStmt:
 		if call, ok := x.X.(*ast.CallExpr); ok {
-			if blk := in.tryInline(nil, token.ASSIGN, call); blk != nil {
+			in.tail = in.tailStmt != nil && ast.Stmt(x) == in.tailStmt && len(in.stack) <= 1
+			blk := in.tryInline(nil, token.ASSIGN, call)
+			in.tail = false
+			if blk != nil {
 				return blk, true
 			}
 		}
@@ -416,7 +436,11 @@ func (in *inliner) inlinable(fn *types.Func, fd *ast.FuncDecl) bool {
 		switch x := n.(type) {
 		case *ast.FuncLit:
 			return false
-		case *ast.DeferStmt, *ast.LabeledStmt:
+		case *ast.DeferStmt:
+			if !in.tail {
+				ok = false
+			}
+		case *ast.LabeledStmt:
 			ok = false
 		case *ast.BranchStmt:
 			if x.Tok == token.GOTO {
